@@ -287,11 +287,14 @@ def cross_talk(ck, prop):
                 wit = {"op": name, "dtype": dn, "lshape": list(shape)}
                 ok, r1 = ck.call("crosstalk", f"{name}/{dn}", name, f, X, aux, witness=wit)
                 if ok:
-                    held.append((name, f, X, aux, _vals(r1), wit))
+                    held.append((name, f, X, aux, _vals(r1), wit, r1))
         ran, failed = battery(rng, dtype)
         ck.note_add("crosstalk_battery_calls", ran)
         ck.note_add("crosstalk_battery_calls_raised", failed)
-        for (name, f, X, aux, c1, wit) in held:
+        for (name, f, X, aux, c1, wit, r1) in held:
+            # the result handed out before is the caller's: nothing called since may have changed it
+            ck.check(torch.equal(torch.nan_to_num(_vals(r1)), torch.nan_to_num(c1)), "crosstalk", f"{name}/{dn}", name,
+                     "earlier_result_changed_by_a_later_call", wit)
             ok, r2 = ck.call("crosstalk", f"{name}/{dn}", name, f, X, aux, witness=wit)
             ck.count("crosstalk", f"{name}/{dn}", key=(name, dn, tuple(wit["lshape"])))
             if ok:
